@@ -191,11 +191,9 @@ def baseline(ins, text, ts):
 
 
 def longest_sequence(text):
-    m = core.load_repo()
-    t = m._preprocess_string(text)
-    ms = m._match_regex(t, m.global_regex)
-    seqs = m._regex_stack(t, ms)
-    return max([len(s) for s in seqs] or [1]), len(seqs)
+    # harness-side count over the library's matches (gen.seq_stats3); independent of the library's own enumeration
+    n, nseq, maxlen = gen.seq_stats3(text)
+    return max(maxlen, 1), nseq
 
 
 def check_point(ins, text, ts, k, full, bound, single):
